@@ -213,6 +213,11 @@ func NewDenomTracesRequest(method *abi.Method, args []interface{}) (*transfertyp
 		return nil, fmt.Errorf("error while unpacking args to PageRequest: %w", err)
 	}
 
+	// an empty ABI `bytes` key means "no key": leave it nil so that offset pagination stays usable
+	if len(pageRequest.PageRequest.Key) == 0 {
+		pageRequest.PageRequest.Key = nil
+	}
+
 	req := &transfertypes.QueryDenomTracesRequest{
 		Pagination: &pageRequest.PageRequest,
 	}
